@@ -90,6 +90,13 @@ pub fn gen_size(g: &mut Gen, mode: Mode, cfg: &PicCfg) -> Size {
             if cfg.max_fixed_mbs >= 6336 {
                 opts.push(Size::Cif16);
             }
+            // custom picture formats (PLUSPTYPE + CPFMT): any multiple of 4
+            if g.chance(2, 5) {
+                let lim = (cfg.max_dim as i64 / 4).max(1);
+                let w = if g.chance(1, 3) { g.range(1, 8) } else { g.range(1, lim.min(if cfg.small_bias { 24 } else { lim })) } as u16 * 4;
+                let h = if g.chance(1, 3) { g.range(1, 8) } else { g.range(1, lim.min(if cfg.small_bias { 24 } else { lim }).min(288)) } as u16 * 4;
+                return Size::StdCustom(w, h);
+            }
             // bigger formats are rarer
             let weights: Vec<u32> = (0..opts.len()).map(|i| [8u32, 6, 2, 1, 1][i]).collect();
             opts[g.weighted(&weights)]
@@ -164,6 +171,31 @@ pub fn gen_header(g: &mut Gen, mode: Mode, version: u8, size: Size, ptype: PicTy
         if g.chance(1, 8) {
             h.cpm = Some(g.below(4) as u8);
         }
+        // header form: custom formats need PLUSPTYPE; predicted pictures may leave the format
+        // unstated (UFEP = 000), intra pictures must restate it
+        let custom = matches!(size, Size::StdCustom(..));
+        h.plus = match (custom, ptype == PicType::I) {
+            (true, true) => PlusForm::Full,
+            (true, false) => {
+                if g.bool() {
+                    PlusForm::Brief
+                } else {
+                    PlusForm::Full
+                }
+            }
+            (false, true) => {
+                if g.chance(1, 4) {
+                    PlusForm::Full
+                } else {
+                    PlusForm::Baseline
+                }
+            }
+            (false, false) => match g.weighted(&[4, 1, 1]) {
+                0 => PlusForm::Baseline,
+                1 => PlusForm::Full,
+                _ => PlusForm::Brief,
+            },
+        };
     }
     if g.chance(1, 8) {
         let n = g.range(1, 3) as usize;
